@@ -252,6 +252,16 @@ func runStoreProp(prop, tier string, r *rng) {
 		parFailCase(prop, 40, 31, 12, 4, true)
 		parFailCase(prop, 40, 31, 12, 4, false)
 	}
+	if prop == "C08" {
+		queuedDeleteCase(prop, 21, 31, 41, 25, 32)
+		queuedDeleteCase(prop, 10, 14, 20, 12, 15)
+		queuedDeleteCase(prop, 10, 14, 20, 5, 15)
+	}
+	if prop == "C14" || prop == "C08" {
+		flushInHandlerCase(prop, 3, 4, 8, 8) // `more` = batch size: the handler's own append forces a flush
+		flushInHandlerCase(prop, 6, 4, 6, 6)
+		flushInHandlerCase(prop, 5, 6, 4, 4)
+	}
 	if prop == "C08" || prop == "C14" {
 		for round := 0; round < 4; round++ {
 			parFailCase(prop, 40, 31, 12, 4, false)
@@ -384,4 +394,164 @@ func parFailCase(prop string, n, to, failFrom, par int, only bool) {
 	mu.Unlock()
 	emit("%s kind=parfail n=%d to=%d failfrom=%d par=%d only=%d => res1=%s tail1=%d head1=%d stored1=%s keys1=%s handled1=%s res2=%s tail2=%d head2=%d stored2=%s keys2=%s handledTwice=%d unreadableAtCall=%d",
 		prop, n, to, failFrom, par, b2i(only), errs(e1), t1, h1, js(s1), js(k1), js(once1), errs(e2), t2, h2, js(s2), js(k2), multi, unreadable)
+}
+
+// queuedDeleteCase: DeleteRange is called while an Append that has already returned is still queued behind a
+// busy flush loop (its batch commit is parked). The range [a,b) is a mid-chain range of the REAL chain 1..n2 (it
+// would be a head-side range of the stale chain 1..n1 seen before the queue drains): it must be rejected with no
+// effect.
+func queuedDeleteCase(prop string, n0, n1, n2, a, b int) {
+	ctx := context.Background()
+	chain := vhdr.Chain("A", n2, storeT0, int64(time.Second), 0)
+	core := memds.NewCore()
+	st, err := store.NewStore[*vhdr.Header](&memds.Plain{C: core}, store.WithWriteBatchSize(n1-n0))
+	if err != nil {
+		panic(err)
+	}
+	if err := st.Start(ctx); err != nil {
+		panic(err)
+	}
+	defer st.Stop(ctx) //nolint:errcheck
+	_ = st.Append(ctx, chain[:n0]...)
+	_ = st.Sync(ctx)
+	_ = st.Stop(ctx) // flush everything, then reopen: 1..n0 are on disk
+	st, err = store.NewStore[*vhdr.Header](&memds.Plain{C: core}, store.WithWriteBatchSize(n1-n0))
+	if err != nil {
+		panic(err)
+	}
+	if err := st.Start(ctx); err != nil {
+		panic(err)
+	}
+	parked, release := make(chan struct{}), make(chan struct{})
+	var fired sync.Once
+	core.WriteGate = func(w memds.Write) {
+		if w.Batch {
+			fired.Do(func() { close(parked); <-release })
+		}
+	}
+	_ = st.Append(ctx, chain[n0:n1]...) // fills the batch: the flush loop commits and parks
+	was := "yes"
+	select {
+	case <-parked:
+	case <-time.After(2 * time.Second):
+		was = "no"
+	}
+	actx, cancelA := context.WithTimeout(ctx, time.Second)
+	_ = st.Append(actx, chain[n1:]...) // returns, but stays queued behind the parked flush
+	cancelA()
+	derr := make(chan error, 1)
+	go func() {
+		c, cancel := context.WithTimeout(ctx, 5*time.Second)
+		defer cancel()
+		derr <- st.DeleteRange(c, uint64(a), uint64(b))
+	}()
+	time.Sleep(30 * time.Millisecond)
+	close(release)
+	var de error
+	select {
+	case de = <-derr:
+	case <-time.After(6 * time.Second):
+		de = errors.New("hang")
+	}
+	core.WriteGate = nil
+	_ = st.Sync(ctx)
+	hd, tl := uint64(0), uint64(0)
+	if h, err := st.Head(ctx); err == nil {
+		hd = h.H
+	}
+	if h, err := st.Tail(ctx); err == nil {
+		tl = h.H
+	}
+	var stored []string
+	for h := 1; h <= n2; h++ {
+		if x, err := st.GetByHeight(cancelled, uint64(h)); err == nil && x.H == uint64(h) {
+			stored = append(stored, itoa(h))
+		}
+	}
+	emit("%s kind=queued n0=%d n1=%d n2=%d a=%d b=%d => parked=%s delete=%s head=%d tail=%d stored=%s", prop, n0, n1, n2, a, b,
+		was, errs(de), hd, tl, strings.Join(stored, ","))
+}
+
+// flushInHandlerCase: DeleteRange(1,to) over headers that are still only in the write batch; the handler of the
+// LAST height of the range appends more headers and syncs, so that the flush loop writes the pending batch to the
+// datastore while that header's handler is in flight. Afterwards nothing of the range may be left anywhere.
+func flushInHandlerCase(prop string, n, to, more, batch int) {
+	ctx := context.Background()
+	chain := vhdr.Chain("A", n+more+2, storeT0, int64(time.Second), 0)
+	core := memds.NewCore()
+	st, err := store.NewStore[*vhdr.Header](&memds.Plain{C: core}, store.WithWriteBatchSize(batch))
+	if err != nil {
+		panic(err)
+	}
+	if err := st.Start(ctx); err != nil {
+		panic(err)
+	}
+	defer st.Stop(ctx) //nolint:errcheck
+	_ = st.Append(ctx, chain[:n]...)
+	_ = st.Sync(ctx)
+	var mu sync.Mutex
+	calls := map[uint64]int{}
+	var once sync.Once
+	st.OnDelete(func(ctx context.Context, h uint64) error {
+		mu.Lock()
+		calls[h]++
+		mu.Unlock()
+		if h == uint64(to-1) {
+			once.Do(func() {
+				_ = st.Append(ctx, chain[n:n+more]...)
+				c, cancel := context.WithTimeout(context.Background(), 2*time.Second)
+				_ = st.Sync(c)
+				cancel()
+			})
+		}
+		return nil
+	})
+	c, cancel := context.WithTimeout(ctx, 5*time.Second)
+	e1 := st.DeleteRange(c, 1, uint64(to))
+	cancel()
+	_ = st.Sync(ctx)
+	_ = st.Append(ctx, chain[n+more:]...) // the next flush must not bring anything back
+	_ = st.Sync(ctx)
+	hd, tl := uint64(0), uint64(0)
+	if h, err := st.Head(ctx); err == nil {
+		hd = h.H
+	}
+	if h, err := st.Tail(ctx); err == nil {
+		tl = h.H
+	}
+	var stored, keys []string
+	snap := core.Snapshot()
+	for h := 1; h <= n+more+2; h++ {
+		if x, err := st.GetByHeight(cancelled, uint64(h)); err == nil && x.H == uint64(h) {
+			stored = append(stored, itoa(h))
+		}
+		if _, ok := snap["/"+itoa(h)]; ok {
+			keys = append(keys, itoa(h))
+		} else if _, ok := snap["/headers/"+itoa(h)]; ok {
+			keys = append(keys, itoa(h))
+		}
+	}
+	// a second delete must not call handlers for heights that were already handled
+	c2, cancel2 := context.WithTimeout(ctx, 5*time.Second)
+	e2 := error(nil)
+	if tl >= 1 && hd > tl {
+		e2 = st.DeleteRange(c2, tl, tl+1)
+	}
+	cancel2()
+	twice := 0
+	mu.Lock()
+	for h, k := range calls {
+		if k > 1 && h < uint64(to) {
+			twice++
+		}
+	}
+	mu.Unlock()
+	js := func(xs []string) string {
+		if len(xs) == 0 {
+			return "-"
+		}
+		return strings.Join(xs, ",")
+	}
+	emit("%s kind=flushinhandler n=%d to=%d more=%d batch=%d => delete=%s head=%d tail=%d stored=%s keys=%s second=%s handledTwice=%d", prop, n, to, more, batch,
+		errs(e1), hd, tl, js(stored), js(keys), errs(e2), twice)
 }
